@@ -238,12 +238,16 @@ class SpecArray(object):
 
         # Interpolate at fmin
         if interpolate and fmin is not None:
-            if abs(float(other[attrs.FREQNAME][0]) - fmin) > tol:
+            if other[attrs.FREQNAME].size == 0 or (
+                abs(float(other[attrs.FREQNAME][0]) - fmin) > tol
+            ):
                 other = xr.concat([self._interp_freq(fmin), other], dim=attrs.FREQNAME)
 
         # Interpolate at fmax
         if interpolate and fmax is not None:
-            if abs(float(other[attrs.FREQNAME][-1]) - fmax) > tol:
+            if other[attrs.FREQNAME].size == 0 or (
+                abs(float(other[attrs.FREQNAME][-1]) - fmax) > tol
+            ):
                 other = xr.concat([other, self._interp_freq(fmax)], dim=attrs.FREQNAME)
 
         other.freq.attrs = self._obj[attrs.FREQNAME].attrs
